@@ -6,7 +6,44 @@ import (
 	"fmt"
 	"sort"
 	"strings"
+
+	"github.com/anishathalye/porcupine"
 )
+
+// PorcupineChecks counts histories on which the brute-force linearizability verdict was
+// cross-checked against porcupine (a disagreement panics: harness error).
+var PorcupineChecks int64
+
+type regIn struct {
+	write bool
+	val   string
+}
+
+var registerModel = porcupine.Model{
+	Init: func() interface{} { return "" },
+	Step: func(state, input, output interface{}) (bool, interface{}) {
+		in := input.(regIn)
+		if in.write {
+			return true, in.val
+		}
+		return output.(string) == state.(string), state
+	},
+	Equal: func(a, b interface{}) bool { return a.(string) == b.(string) },
+}
+
+// porcupineLinearizable is the second opinion: an unacknowledged write returns "at the end
+// of time" (for a register, never taking effect = taking effect after everything else).
+func porcupineLinearizable(ops []linOp, issue, ret map[int]int) bool {
+	var hist []porcupine.Operation
+	for _, o := range ops {
+		r := int64(1) << 40
+		if o.definite {
+			r = int64(ret[o.idx])*2 + 1
+		}
+		hist = append(hist, porcupine.Operation{ClientId: o.idx, Input: regIn{o.write, o.val}, Call: int64(issue[o.idx]) * 2, Output: o.val, Return: r})
+	}
+	return porcupine.CheckOperations(registerModel, hist)
+}
 
 // Oracle evaluates a property in the current state; sig=="" means it holds.
 type Oracle func(c *Cluster) (sig, desc string)
@@ -228,11 +265,13 @@ func OracleC23(c *Cluster) (string, string) {
 	for _, k := range ks {
 		var ops []linOp
 		var shape []string
+		issue, ret := map[int]int{}, map[int]int{}
 		for _, call := range c.calls {
 			if call.Spec.Key != k {
 				continue
 			}
-			d, o, e, _ := call.snapshot()
+			d, o, e, rs := call.snapshot()
+			issue[call.Op], ret[call.Op] = call.IssueStep, rs
 			switch call.Spec.Kind {
 			case "w":
 				if d && (o == OutNotLeader || o == OutEpoch) {
@@ -257,7 +296,14 @@ func OracleC23(c *Cluster) (string, string) {
 				shape = append(shape, fmt.Sprintf("op%d:r=%s:after%s", call.Op, e, maskString(call.DoneAt)))
 			}
 		}
-		if !linearizable(ops) {
+		lin := linearizable(ops)
+		if len(ops) > 0 {
+			PorcupineChecks++
+			if pl := porcupineLinearizable(ops, issue, ret); pl != lin {
+				panic(fmt.Sprintf("clustermc: linearizability checkers disagree (brute force %v, porcupine %v) on %s", lin, pl, strings.Join(shape, "|")))
+			}
+		}
+		if !lin {
 			pre := "non-linearizable"
 			if misrouted {
 				pre = "non-linearizable(after-misrouted-ack)"
